@@ -95,6 +95,15 @@ def cases_gradient(tier):
         out[-1]["__concrete_only__"] = True
         add(3, 1, 1, 1, None, True, "mean", shared=True)
         add(3, 2, 2, 1, None, True, "mean", cw=[0.0, 1.0, 0.0])
+        # larger shapes and a systematic sweep of failure patterns (R = 2, P = 2)
+        add(3, 3, 3, 1, None, False, "mean")
+        add(4, 2, 2, 1, None, False, "mean")
+        add(2, 3, 3, 2, [True, False, True], False, "mean", K=1)
+        add(4, 1, 1, 1, None, False, "mean", fr=[False, True, False, True])
+        for frp in ([False, False], [True, False], [False, True]):
+            for fpp in ([[False, False], [False, False]], [[True, False], [False, False]], [[False, True], [True, False]], [[True, True], [False, False]], [[False, False], [True, True]]):
+                add(2, 2, 1, 1, None, False, "mean", fr=frp, fp=fpp)
+                add(2, 2, 2, 1, [False, True], False, "mean", fr=frp, fp=fpp, K=1)
     for c in out:
         yield "R%dP%dN%dJ%dK%d/mask=%s/%s/%s/fr=%s/fp=%s/w=%s%s%s" % (
             c["R"], c["P"], c["N"], c["J"], c["K"], c["mask"], "merged" if c["merge"] else "per-realization", c["est"],
